@@ -248,6 +248,14 @@ impl Minimizer {
                                 src: src.clone(),
                                 opts: opts.clone(),
                             }),
+                            Op::StagedSplit { src, between, opts, via_json } if *via_json || between != "from x" => {
+                                Some(Op::StagedSplit {
+                                    src: src.clone(),
+                                    between: "from x".into(),
+                                    via_json: false,
+                                    opts: opts.clone(),
+                                })
+                            }
                             _ => None,
                         };
                         match simpler {
